@@ -4,6 +4,7 @@ use core::num::NonZeroUsize;
 use std::num::NonZeroU64;
 use std::convert::TryInto;
 verus! {
+//@@ body-begin
 
 //@ item rust/automerge/src/storage/parse.rs | type ParseResult
 //@ item rust/automerge/src/storage/parse.rs | struct Input
@@ -226,6 +227,208 @@ pub proof fn lemma_p128_shift(k: nat)
     assert((1u64 << 56u64) == 72057594037927936) by (bit_vector);
     assert((1u64 << 63u64) == 9223372036854775808) by (bit_vector);
 }
+/// one decoding step for the first nine groups: OR-ing a 7-bit group above `res` is adding it
+pub proof fn lemma_or_add(res: u64, b: u8, s: u64)
+    requires s <= 56, res < (1u64 << s),
+    ensures (res | (((b & 0x7F) as u64) << s)) == res + ((b & 0x7F) as u64) * (1u64 << s),
+        (res | (((b & 0x7F) as u64) << s)) < (1u64 << ((s + 7) as u64)),
+        (b & 0x7F) as nat == b as nat % 128,
+{
+    assert((res | (((b & 0x7F) as u64) << s)) == res + ((b & 0x7F) as u64) * (1u64 << s)) by (bit_vector) requires s <= 56, res < (1u64 << s);
+    assert((res | (((b & 0x7F) as u64) << s)) < (1u64 << ((s + 7) as u64))) by (bit_vector) requires s <= 56, res < (1u64 << s);
+    assert((b & 0x7F) == b % 128) by (bit_vector);
+}
+/// the tenth group: only the value 1 survives the checks, and it lands on bit 63
+pub proof fn lemma_or_add_top(res: u64, b: u8)
+    requires res < (1u64 << 63u64), b == 1,
+    ensures (res | (((b & 0x7F) as u64) << 63u64)) == res + 0x8000_0000_0000_0000u64,
+{
+    assert((res | (((b & 0x7F) as u64) << 63u64)) == res + 0x8000_0000_0000_0000u64) by (bit_vector) requires res < (1u64 << 63u64), b == 1;
+}
+/// valk only looks at the first k bytes
+pub proof fn lemma_valk_prefix(s: Seq<u8>, t: Seq<u8>, k: nat)
+    requires k <= s.len(), k <= t.len(), forall|j: int| 0 <= j < k ==> s[j] == t[j],
+    ensures valk(s, k) == valk(t, k),
+    decreases k,
+{
+    if k > 0 { lemma_valk_prefix(s, t, (k - 1) as nat); }
+}
+/// peel the LOW group: valk(s,k) = s[0]%128 + 128 * valk(s[1..], k-1)
+pub proof fn lemma_valk_shift(s: Seq<u8>, k: nat)
+    requires 1 <= k <= s.len(),
+    ensures valk(s, k) == (s[0] as nat % 128) + 128 * valk(s.subrange(1, s.len() as int), (k - 1) as nat),
+    decreases k,
+{
+    let t = s.subrange(1, s.len() as int);
+    if k == 1 {
+        reveal_with_fuel(valk, 2);
+        reveal_with_fuel(p128, 2);
+        assert(valk(s, 1) == valk(s, 0) + (s[0] as nat % 128) * p128(0));
+    } else {
+        lemma_valk_shift(s, (k - 1) as nat);
+        assert(t[k - 2] == s[k - 1]);
+        assert(p128((k - 1) as nat) == 128 * p128((k - 2) as nat));
+        let a = s[0] as nat % 128;
+        let g = s[k - 1] as nat % 128;
+        let m1 = valk(t, (k - 2) as nat);
+        assert(valk(s, (k - 1) as nat) == a + 128 * m1);
+        assert(valk(t, (k - 1) as nat) == m1 + g * p128((k - 2) as nat));
+        assert(valk(s, k) == valk(s, (k - 1) as nat) + g * p128((k - 1) as nat));
+        assert(g * (128 * p128((k - 2) as nat)) == 128 * (g * p128((k - 2) as nat))) by (nonlinear_arith);
+    }
+}
+pub proof fn lemma_valk_1(s: Seq<u8>)
+    requires s.len() >= 1,
+    ensures valk(s, 1) == s[0] as nat % 128,
+{
+    assert(p128(0) == 1);
+    assert(valk(s, 0) == 0);
+    assert(valk(s, 1) == valk(s, 0) + (s[0] as nat % 128) * p128(0));
+    assert((s[0] as nat % 128) * 1 == s[0] as nat % 128);
+}
+/// a non-zero top group makes the value at least 128^(k-1) >= 1
+pub proof fn lemma_valk_lower(s: Seq<u8>, k: nat)
+    requires 1 <= k <= s.len(), s[k - 1] as nat % 128 != 0,
+    ensures valk(s, k) >= 1,
+{
+    lemma_p128_pos((k - 1) as nat);
+    assert((s[k - 1] as nat % 128) * p128((k - 1) as nat) >= 1) by (nonlinear_arith)
+        requires s[k - 1] as nat % 128 >= 1, p128((k - 1) as nat) >= 1;
+}
+pub proof fn lemma_p128_pos(k: nat) ensures p128(k) >= 1 decreases k { if k > 0 { lemma_p128_pos((k - 1) as nat); } }
+
+/// the shape the decoder accepts: k-1 continuation bytes, a final byte, no zero top group
+pub open spec fn leb_shape(s: Seq<u8>, k: int) -> bool {
+    1 <= k <= s.len() && all_cont(s, k - 1) && s[k - 1] < 0x80 && (k > 1 ==> s[k - 1] != 0)
+}
+/// CANONICITY: a byte string of that shape IS the canonical encoding of its value
+pub proof fn lemma_shape_is_canonical(s: Seq<u8>, k: int)
+    requires leb_shape(s, k),
+    ensures s.subrange(0, k) =~= leb(valk(s, k as nat)),
+    decreases k,
+{
+    if k == 1 {
+        reveal_with_fuel(valk, 2);
+        reveal_with_fuel(p128, 2);
+        reveal_with_fuel(leb, 2);
+        lemma_valk_1(s);
+        assert(s[0] as nat % 128 == s[0] as nat);
+        assert(leb(s[0] as nat) =~= seq![s[0]]);
+    } else {
+        let t = s.subrange(1, s.len() as int);
+        assert(leb_shape(t, k - 1)) by {
+            assert forall|j: int| 0 <= j < k - 2 implies #[trigger] t[j] >= 0x80 by { assert(s[j + 1] >= 0x80); }
+        }
+        lemma_shape_is_canonical(t, k - 1);
+        lemma_valk_shift(s, k as nat);
+        assert(t[k - 2] == s[k - 1]);
+        lemma_valk_lower(t, (k - 1) as nat);
+        let a = s[0] as nat % 128;
+        let m = valk(t, (k - 1) as nat);
+        let n = valk(s, k as nat);
+        assert(n == a + 128 * m);
+        assert(n >= 128);
+        assert(n % 128 == a && n / 128 == m) by (nonlinear_arith) requires n == a + 128 * m, a < 128;
+        assert(s[0] >= 0x80);
+        assert(((n % 128) + 128) as u8 == s[0]);
+        assert(leb(n) =~= seq![s[0]] + leb(m));
+        assert(s.subrange(0, k) =~= seq![s[0]] + t.subrange(0, k - 1));
+    }
+}
+pub proof fn lemma_leb_unfold(n: nat)
+    ensures n < 128 ==> leb(n) =~= seq![n as u8],
+        n >= 128 ==> leb(n) =~= seq![((n % 128) + 128) as u8] + leb(n / 128),
+        leb(n).len() >= 1, leb(n).len() == 1 <==> n < 128,
+    decreases n,
+{
+    if n >= 128 { lemma_leb_unfold(n / 128); }
+}
+/// leb(n) has the shape the decoder accepts (so the encoder's output is never rejected as overlong)
+pub proof fn lemma_leb_shape(n: nat)
+    ensures leb_shape(leb(n), leb(n).len() as int),
+    decreases n,
+{
+    lemma_leb_unfold(n);
+    if n >= 128 {
+        let m = n / 128;
+        lemma_leb_shape(m);
+        lemma_leb_unfold(m);
+        let t = leb(m);
+        let s = leb(n);
+        let b0 = ((n % 128) + 128) as u8;
+        let k = s.len() as int;
+        assert(s =~= seq![b0] + t);
+        assert(k == t.len() + 1);
+        assert(s[0] == b0 && b0 >= 0x80);
+        assert forall|j: int| 0 <= j < k - 1 implies #[trigger] s[j] >= 0x80 by {
+            if j > 0 { assert(s[j] == t[j - 1]); assert(t[j - 1] >= 0x80); }
+        }
+        assert(s[k - 1] == t[k - 2]);
+        if t.len() == 1 {
+            assert(m < 128 && m >= 1);
+            assert(t[0] == m as u8);
+        }
+    }
+}
+/// ... and decodes back to n
+pub proof fn lemma_leb_value(n: nat)
+    ensures valk(leb(n), leb(n).len()) == n,
+    decreases n,
+{
+    lemma_leb_unfold(n);
+    if n < 128 {
+        lemma_valk_1(leb(n));
+    } else {
+        let m = n / 128;
+        lemma_leb_value(m);
+        let t = leb(m);
+        let s = leb(n);
+        let b0 = ((n % 128) + 128) as u8;
+        assert(s =~= seq![b0] + t);
+        assert(s.subrange(1, s.len() as int) =~= t);
+        lemma_valk_shift(s, s.len());
+        assert(s[0] == b0);
+        assert(b0 as nat % 128 == n % 128);
+        assert(n == (n % 128) + 128 * m) by (nonlinear_arith) requires m == n / 128;
+    }
+}
+/// number of bytes of leb(n) for 64-bit values: at most 10, and the tenth byte is 1
+pub proof fn lemma_leb_len_u64(n: nat)
+    requires n <= u64::MAX,
+    ensures 1 <= leb(n).len() <= 10, leb(n).len() == 10 ==> leb(n)[9] == 1,
+{
+    reveal_with_fuel(leb, 11);
+    assert(u64::MAX / 128 / 128 / 128 / 128 / 128 / 128 / 128 / 128 / 128 == 1) by (compute_only);
+}
+
+/// two accepted shapes on the same bytes have the same length (the first byte without continuation bit)
+pub proof fn lemma_shape_unique(s: Seq<u8>, k1: int, k2: int)
+    requires leb_shape(s, k1), leb_shape(s, k2),
+    ensures k1 == k2,
+{
+    if k1 < k2 { assert(s[k1 - 1] >= 0x80); }
+    if k2 < k1 { assert(s[k2 - 1] >= 0x80); }
+}
+/// what a u64 decoder accepts: a canonical encoding of at most ten bytes whose tenth byte is 1
+pub open spec fn accepts_u64(s: Seq<u8>, k: int) -> bool { leb_shape(s, k) && k <= 10 && (k == 10 ==> s[9] == 1) }
+/// ROUND TRIP at the level of byte strings: whatever follows it, the canonical encoding of a u64
+/// has the accepted shape and its value is v.  Together with leb128_u64's contract
+/// (Ok whenever an accepted shape is present; result == valk of that shape; shapes are unique)
+/// this gives  leb128_u64(leb(v) ++ rest) == Ok((rest, v)).
+pub proof fn lemma_decode_of_encode(v: nat, rest: Seq<u8>)
+    requires v <= u64::MAX,
+    ensures accepts_u64(leb(v) + rest, leb(v).len() as int), valk(leb(v) + rest, leb(v).len()) == v,
+{
+    let e = leb(v);
+    let s = e + rest;
+    let k = e.len() as int;
+    lemma_leb_shape(v);
+    lemma_leb_value(v);
+    lemma_leb_len_u64(v);
+    assert forall|j: int| 0 <= j < k implies s[j] == e[j] by {}
+    assert forall|j: int| 0 <= j < k - 1 implies #[trigger] s[j] >= 0x80 by { assert(e[j] >= 0x80); }
+    lemma_valk_prefix(s, e, k as nat);
+}
 
 //@ fn rust/automerge/src/storage/parse/leb128.rs | leb128_u64
 //@   ret r
@@ -235,36 +438,54 @@ pub proof fn lemma_p128_shift(k: nat)
     ensures
         // C15/C17: consumes 1..=10 bytes: the last without continuation bit, the others with it
         r matches Ok((i, v)) ==> ({ let k = i.position - input.position; 1 <= k <= 10 && input.advanced(i, k)
-            && all_cont(input.bytes@, k - 1) && input.bytes[k - 1] < 0x80 && i.wf() && (input.aligned() ==> i.aligned())
-            // canonical only: an accepted multi-byte encoding never ends in a zero group
-            && (k > 1 ==> input.bytes[k - 1] != 0) }),
+            && i.wf() && (input.aligned() ==> i.aligned())
+            // canonical only (no overlong encodings), value = sum of the 7-bit groups
+            && accepts_u64(input.bytes@, k) && v as nat == valk(input.bytes@, k as nat) }),
         // C13: Incomplete exactly when the input ends inside an encoding -- so every strict
         // prefix of an accepted encoding is Incomplete, never Ok and never another error
         (r matches Err(ParseError::Incomplete(_))) <==> (input.bytes.len() < 10 && all_cont(input.bytes@, input.bytes.len() as int)),
+        // C19: every canonical encoding of a u64 is accepted
+        forall|k: int| accepts_u64(input.bytes@, k) ==> r is Ok,
 //@   before /^    loop \{$/
     let ghost orig = input;
     let ghost mut k: int = 0;
-    proof { assert(orig.bytes@.subrange(0, orig.bytes.len() as int) =~= orig.bytes@); }
+    proof { assert(orig.bytes@.subrange(0, orig.bytes.len() as int) =~= orig.bytes@); lemma_p128_shift(0); }
 //@   loop 1
         invariant
             0 <= k <= 9, shift == 7 * k, orig.wf(), input.wf(),
             orig.advanced(input, k), all_cont(orig.bytes@, k),
             orig.aligned() ==> input.aligned(),
+            res as nat == valk(orig.bytes@, k as nat), (res as nat) < p128(k as nat),
         decreases 10 - k,
 //@   before /let \(i, byte\) = take1\(input\)\?;/
         proof { assert(input.bytes.len() == orig.bytes.len() - k); }
+        let ghost res_old = res;
 //@   after /input = i;/
         proof {
             assert(byte == orig.bytes[k]);
             assert(input.bytes@ =~= orig.bytes@.subrange(k + 1, orig.bytes.len() as int));
             assert(byte & 0x7F <= 0x7f) by (bit_vector);
             assert((byte & 0x80) == 0 <==> byte < 0x80) by (bit_vector);
+            lemma_p128_shift(k as nat);
+            if k <= 8 { lemma_or_add(res, byte, shift); }
         }
 //@   after /shift \+= 7;/
         proof {
             k = k + 1;
             assert(orig.bytes@[k - 1] == byte); assert(orig.advanced(input, k)); assert(all_cont(orig.bytes@, k - 1));
             assert((byte & 0x80) == 0 ==> orig.bytes[k - 1] < 0x80);
+            assert(valk(orig.bytes@, k as nat) == valk(orig.bytes@, (k - 1) as nat) + (byte as nat % 128) * p128((k - 1) as nat));
+            if k <= 9 {
+                lemma_p128_shift(k as nat);
+                assert(res as nat == valk(orig.bytes@, k as nat));
+                assert((res as nat) < p128(k as nat));
+            } else if byte == 1 {
+                lemma_or_add_top(res_old, byte);
+                lemma_p128_shift(9);
+                assert((1u64 << 63u64) == 0x8000_0000_0000_0000u64) by (bit_vector);
+                assert(p128(9) == 0x8000_0000_0000_0000nat);
+                assert(res as nat == valk(orig.bytes@, 10));
+            }
         }
 //@ end
 
@@ -343,5 +564,6 @@ pub proof fn lemma_p128_shift(k: nat)
         (len <= input.bytes.len() && !valid_utf8(input.bytes@.subrange(0, len as int))) ==> r is Err,
 //@ end
 
+//@@ body-end
 } // verus!
 fn main() {}
